@@ -65,6 +65,9 @@ pub fn run(cfg: &Cfg, rep: &mut Report) {
         let ferr = pick_error(rng);
         let mut scripts = crate::props::c10::framing_scripts(rng, nh, false);
         scripts[f].fail = Some(ferr);
+        // half of the failing handlers refuse before reading their parameters: the error reported must still be
+        // theirs, not a complaint about the data they left unread
+        scripts[f].fail_before_pulls = rng.bool();
         scripts[g].omnivore = false;
         scripts[g].pulls = vec![Pull { optional: false, conv: Conv::Token }; 2];
         let built: Built<Dev, Script> = Built::new(&specs, scripts.clone());
